@@ -331,9 +331,11 @@ def parse_fixed_table(table_lines,
 
     def calc_column_indices(line, headers):
         idx = []
+        i = 0
         for h in headers:
-            i = idx[-1] + 1 if idx else 0
             idx.append(line.index(h, i))
+            # search the next header after the end of this one
+            i = idx[-1] + len(h)
         return idx
 
     first_line = calc_offset(table_lines, heading_ignore)
